@@ -136,6 +136,7 @@ type loopCtx struct {
 }
 
 type G struct {
+	nctx         int // constructs generated so far that save and restore compiler context (if/for/range/switch/block/inlined call)
 	r            *prng.R
 	feat         map[string]int
 	structs      []*StructDef
@@ -349,6 +350,7 @@ func (g *G) genExpr(t Ty, d int) E {
 
 // genInline: a call of a helper that the compiler inlines; the checked rendering spells the helper out.
 func (g *G) genInline(d int) E {
+	g.nctx++
 	a, b := g.genInt(d-1), g.genInt(d-1)
 	which := g.r.Intn(5)
 	if g.noLoopInline && (which == 2 || which == 4) {
@@ -887,10 +889,87 @@ func (g *G) genBlock(n int) E {
 	g.depth++
 	var s sb
 	for i := 0; i < n && g.budget > 0; i++ {
+		before := g.nctx
 		s.add(g.genStmt())
+		// "enter an inner construct, leave it, then use the outer context": right behind a nested if / for / range /
+		// switch / block / inlined call, a branch that refers to an ENCLOSING statement (the compiler saves and restores
+		// currentFor / currentSwitch / labelList / scopes around the inner construct)
+		if g.nctx > before && len(g.loops) > 0 && !g.inMapRange() && g.r.Chance(1, 2) {
+			s.add(g.genAfterCtx())
+		}
 	}
 	g.depth--
 	s.add(g.pop())
+	return s.E()
+}
+
+// genAfterCtx: break / continue / break L / continue L / return referring to an enclosing statement, a third of them
+// unconditional (so that the branch is certainly executed when the place is reached).
+func (g *G) genAfterCtx() E {
+	var s sb
+	inner := g.loops[len(g.loops)-1]
+	uncond := g.r.Chance(1, 3)
+	open, clos := "", ""
+	if !uncond {
+		c := g.genBool(1)
+		s.pc("if "+c.p+" {\n", "if "+c.c+" {\n")
+		clos = "}\n"
+	}
+	_ = open
+	kind := ""
+	switch g.r.Intn(6) {
+	case 0, 1:
+		kind = "break"
+		if inner.isSwitch {
+			kind = "break-switch"
+		}
+		s.both("break\n")
+	case 2:
+		if g.inLoop() {
+			kind = "continue"
+			if inner.isSwitch {
+				kind = "continue-through-switch"
+			}
+			s.both("continue\n")
+		} else {
+			kind = "break-switch"
+			s.both("break\n")
+		}
+	case 3:
+		l := g.loops[g.r.Intn(len(g.loops))]
+		*l.usedLbl = true
+		kind = "break-label"
+		s.both("break %s\n", l.label)
+	case 4:
+		var ls []loopCtx
+		for _, l := range g.loops {
+			if !l.isSwitch {
+				ls = append(ls, l)
+			}
+		}
+		if len(ls) == 0 {
+			kind = "break-switch"
+			s.both("break\n")
+		} else {
+			l := ls[g.r.Intn(len(ls))]
+			*l.usedLbl = true
+			kind = "continue-label"
+			s.both("continue %s\n", l.label)
+		}
+	default:
+		if g.cur == nil || g.inDefer {
+			kind = "break"
+			s.both("break\n")
+		} else {
+			kind = "return"
+			s.add(g.genReturn())
+		}
+	}
+	s.both(clos)
+	g.f("stmt:after-ctx:" + kind)
+	if uncond {
+		g.f("stmt:after-ctx-unconditional")
+	}
 	return s.E()
 }
 
@@ -991,6 +1070,7 @@ func (g *G) genStmt() E {
 	case 8: // container updates
 		return g.genContainerStmt()
 	case 9: // nested block with shadowing
+		g.nctx++
 		g.f("stmt:block")
 		s.both("{\n")
 		s.add(g.genBlock(g.r.Range(1, 3)))
@@ -1213,6 +1293,7 @@ func (g *G) genDefine(t Ty) E {
 }
 
 func (g *G) genIf() E {
+	g.nctx++
 	var s sb
 	g.f("stmt:if")
 	g.push() // scope of the init statement
@@ -1252,6 +1333,7 @@ func (g *G) label() (string, *bool) {
 }
 
 func (g *G) genFor() E {
+	g.nctx++
 	var head, body sb
 	lbl, used := g.label()
 	g.push()
@@ -1320,6 +1402,7 @@ func (g *G) genFor() E {
 }
 
 func (g *G) genRange() E {
+	g.nctx++
 	var s sb
 	lbl, used := g.label()
 	g.push()
@@ -1419,6 +1502,7 @@ func (g *G) genRange() E {
 }
 
 func (g *G) genSwitch() E {
+	g.nctx++
 	var s sb
 	lbl, used := g.label()
 	g.push()
